@@ -183,14 +183,37 @@ class _Violation(Exception):
     pass
 
 
+def _raised_inside_implementation(exc):
+    """Was the exception raised by code of the tree under test (innermost frame under .../mpilot/)?"""
+    tb = traceback.extract_tb(exc.__traceback__)
+    if not tb:
+        return None
+    last = tb[-1]
+    marker = os.sep + "mpilot" + os.sep
+    if marker in last.filename and (os.sep + "vcheck" + os.sep) not in last.filename:
+        return "%s:%s" % (os.path.basename(last.filename), last.name)
+    return None
+
+
 def run_check(check, case, rec):
-    """Run a property's check function; an exception escaping it is a harness error."""
+    """Run a property's check function.
+
+    An exception escaping it is a harness error -- unless it was raised *inside the code under test* at a point where
+    the check did not expect the implementation to raise at all (building a command object, reading an attribute):
+    on the unchanged tree that never happens, so it is reported as a failure of the case rather than of the harness."""
     rec.evaluated()
+    if "first_cases" not in rec.samples:
+        rec.samples["first_cases"] = []
+    if len(rec.samples["first_cases"]) < 2:
+        rec.samples["first_cases"].append(case)
     try:
         fails = check(case, rec)
     except HarnessError:
         raise
-    except Exception:
+    except Exception as exc:
+        where = _raised_inside_implementation(exc)
+        if where is not None:
+            return [Failure("implementation_raised:%s@%s" % (type(exc).__name__, where), "%r\n%s" % (exc, traceback.format_exc()[-1200:]))]
         raise HarnessError("check function raised on case %s\n%s" % (dumps(case)[:1500], traceback.format_exc()))
     return fails or []
 
